@@ -219,7 +219,7 @@ func evalC06(c c06Case) (f *Failure, nontrivial bool, out c06Result) {
 			case "server-close":
 				r.Server.Close()
 			case "cut":
-				r.Net.Refuse = true
+				r.Net.SetRefuse(true)
 				r.Net.CutAll()
 			case "blackhole":
 				r.Net.BlackholeAll(true, true)
